@@ -48,14 +48,15 @@ type eSucc struct {
 }
 
 type eRes struct {
-	ID      int              `json:"id"`
-	Key     string           `json:"key,omitempty"`
-	Succs   []eSucc          `json:"succs,omitempty"`
-	Viols   []eViol          `json:"viols,omitempty"`
-	Stats   map[string]int64 `json:"stats,omitempty"`
-	Points  map[string]int64 `json:"points,omitempty"`
-	Samples []eSample        `json:"samples,omitempty"`
-	Err     string           `json:"err,omitempty"`
+	ID      int                 `json:"id"`
+	Key     string              `json:"key,omitempty"`
+	Succs   []eSucc             `json:"succs,omitempty"`
+	Viols   []eViol             `json:"viols,omitempty"`
+	Stats   map[string]int64    `json:"stats,omitempty"`
+	Points  map[string]int64    `json:"points,omitempty"`
+	Samples []eSample           `json:"samples,omitempty"`
+	Ctx     map[string][]string `json:"ctx,omitempty"` // violation key -> kinds of the op it was seen in
+	Err     string              `json:"err,omitempty"`
 }
 
 func (r *eRes) merge(w *eWorld) {
@@ -85,6 +86,20 @@ func (r *eRes) merge(w *eWorld) {
 		have[v.Key] = true
 	}
 	for _, v := range w.viols {
+		if r.Ctx == nil {
+			r.Ctx = map[string][]string{}
+		}
+		kind := "open"
+		if len(v.Ops) > 0 {
+			kind = v.Ops[len(v.Ops)-1].K
+		}
+		dup := false
+		for _, k := range r.Ctx[v.Key] {
+			dup = dup || k == kind
+		}
+		if !dup {
+			r.Ctx[v.Key] = append(r.Ctx[v.Key], kind)
+		}
 		if !have[v.Key] {
 			have[v.Key] = true
 			r.Viols = append(r.Viols, v)
@@ -407,10 +422,8 @@ func eBFS(p *ePool, s *eSearch, logf func(string, ...interface{})) *eSearchResul
 			if R.violCtx[v.Key] == nil {
 				R.violCtx[v.Key] = map[string]bool{}
 			}
-			if len(v.Ops) > 0 {
-				R.violCtx[v.Key][v.Ops[len(v.Ops)-1].K] = true
-			} else {
-				R.violCtx[v.Key]["open"] = true
+			for _, k := range r.Ctx[v.Key] {
+				R.violCtx[v.Key][k] = true
 			}
 			if !violSeen[v.Key] {
 				violSeen[v.Key] = true
